@@ -361,9 +361,9 @@ func c14Extra(h *vHist, c *vCase) {
 // several goroutines on one Dir (one process, several writers).  Every record written must carry a salt
 // no other write of the run used, of the schema's size, and verify for its password.
 func c14ConcurrentWriters(em *vEmitter, r *vRng) {
-	rounds, writers := 6, 16
+	rounds, writers := 200, 16
 	if vThorough() {
-		rounds = 60
+		rounds = 2500
 	}
 	for _, scr := range []bool{false, true} {
 		root := vScratch("c14c")
